@@ -410,7 +410,7 @@ m("C13","previous-key-current-height","x/jklmint/keeper/mint.go",
 m("C13","devgrants-uses-staker-ratio","x/jklmint/keeper/mint.go",
   'devGrantRatio := sdk.NewDec(params.DevGrantsRatio).QuoInt64(100)','devGrantRatio := sdk.NewDec(params.StakerRatio).QuoInt64(100)',"C13/R4","split:dev-grants")
 m("C13","recurrence-adds","x/jklmint/utils/mint.go",
-  'mint := lastBlockTokens.Sub(decrease.Quo(blockPerYearDec)).TruncateInt64()','mint := lastBlockTokens.Add(decrease.Quo(blockPerYearDec)).TruncateInt64()',"C13/R2","recurrence:shape")
+  'mint := lastBlockTokens.Sub(decrease.Quo(blockPerYearDec)).TruncateInt64()','mint := lastBlockTokens.Add(decrease.Quo(blockPerYearDec)).TruncateInt64()',"C13/R2","recurrence")
 m("C13","split-base-from-params","x/jklmint/keeper/mint.go",
   'err = k.mintDevGrants(ctx, mintTokens, denom, params)','err = k.mintDevGrants(ctx, params.TokensPerBlock, denom, params)',"C13/R1","split-base")
 m("C13","stipend-to-dev-account","x/jklmint/keeper/mint.go",
